@@ -12,8 +12,8 @@ from checks import callflow as cf, filters
 SEP = b"|~|"
 FIELDS = [("login", b"%{login}"), ("uid", b"%{uid}"), ("euid", b"%{euid}"), ("gid", b"%{gid}"), ("egid", b"%{egid}"), ("username", b"%{username}"), ("eusername", b"%{eusername}"),
           ("group", b"%{group}"), ("egroup", b"%{egroup}"), ("pid", b"%{pid}"), ("ppid", b"%{ppid}"), ("sid", b"%{sid}"), ("tid_kernel", b"%{tid_kernel}"),
-          ("tid", b"%{tid}"), ("cwd", b"%{cwd}"), ("hostname", b"%{hostname}"), ("tty", b"%{tty}"), ("tty_uid", b"%{tty_uid}"), ("tty_username", b"%{tty_username}"),
-          ("env", b"%{env:XVAR}"), ("envmissing", b"%{env:NOSUCHVAR}"), ("cgroup0", b"%{cgroup:0}"), ("cgroupnone", b"%{cgroup:nosuchcontroller}"),
+          ("tid", b"%{tid}"), ("env", b"%{env:XVAR}"), ("cwd", b"%{cwd}"), ("hostname", b"%{hostname}"), ("tty", b"%{tty}"), ("tty_uid", b"%{tty_uid}"), ("tty_username", b"%{tty_username}"),
+          ("envmissing", b"%{env:NOSUCHVAR}"), ("cgroup0", b"%{cgroup:0}"), ("cgroupnone", b"%{cgroup:nosuchcontroller}"),
           ("rpname", b"%{rpname}"), ("timestamp", b"%{timestamp}"), ("ms", b"%{timestamp_ms}"), ("us", b"%{timestamp_us}"), ("datetime", b"%{datetime}"),
           ("dt_date", b"%{datetime:%Y-%m-%d %H}"), ("dt_epoch", b"%{datetime:%s}"), ("dt_zone", b"%{datetime:%z}"), ("version", b"%{snoopy_version}"), ("env_all", b"%{env_all}")]
 FORKNAME = {"plain": b"worker", "paren": b"w(3) x)", "space": b"a b"}
